@@ -97,6 +97,40 @@ theorem counts_match (rs : List (Test × Verdict × Bool)) :
     simp only [count_cons, List.length_cons]
     cases v <;> simp <;> omega
 
+/-- Discovery loses nothing: every test of every file is collected, under its own file. -/
+theorem collect_complete (files : List (String × List Test)) (f : String) (ts : List Test) (t : Test)
+    (hf : (f, ts) ∈ files) (ht : t ∈ ts) : (f, t) ∈ collect files := by
+  unfold collect
+  exact List.mem_flatMap.2 ⟨(f, ts), hf, List.mem_map.2 ⟨t, ht, rfl⟩⟩
+
+/-- … and invents nothing: what is collected is a test of one of the files. -/
+theorem collect_sound (files : List (String × List Test)) (f : String) (t : Test)
+    (h : (f, t) ∈ collect files) : ∃ ts, (f, ts) ∈ files ∧ t ∈ ts := by
+  unfold collect at h
+  obtain ⟨⟨f', ts⟩, hf, hm⟩ := List.mem_flatMap.1 h
+  obtain ⟨t', ht, heq⟩ := List.mem_map.1 hm
+  simp only [Prod.mk.injEq] at heq
+  obtain ⟨h1, h2⟩ := heq
+  subst h1; subst h2
+  exact ⟨ts, hf, ht⟩
+
+/-- Every collected test counts: as many as the files hold together (the same name in two files is two tests). -/
+theorem collect_length (files : List (String × List Test)) :
+    (collect files).length = (files.map fun f => f.2.length).sum := by
+  unfold collect
+  induction files with
+  | nil => rfl
+  | cons f rest ih => simp [List.flatMap_cons, ih]
+
+/-- Keeping one test per function name drops a failing test behind a passing one of the same name (seed C16-5): the
+run then reports success although a test fails. -/
+theorem first_of_name_hides_a_failure :
+    let files := [("test_alpha.incn", [(⟨"test_roundtrip", false, false, false, true⟩ : Test)]),
+                  ("test_beta.incn", [(⟨"test_roundtrip", false, false, false, false⟩ : Test)])]
+    (runTests none false false ((collect files).map (·.2))).2.exitOk = false ∧
+    (runTests none false false ((collectFirstOfName (collect files)).map (·.2))).2.exitOk = true := by
+  decide
+
 /-- Before the fix a test whose body fails was reported PASSED whenever it compiled (kernel-checked). -/
 theorem old_runner_lied :
     runOneOld { name := "test_fail", skip := false, xfail := false, slow := false, bodyPasses := false } true = .passed := by
